@@ -117,7 +117,7 @@ func init() {
 			mn, mx := tierOps(tier, 8, 28)
 			rc := &RunConfig{Property: "C01", Profile: "churn", Seed: seed, Ctl: sampleCtl(r), MapOrder: r.IntN(2) == 0,
 				Lagfree: r.IntN(4) == 0, MidSched: r.IntN(2) == 0}
-			rc.World, rc.Ops = GenerateRun(seed, GenOptions{ExcludeIngressKeys: alwaysExcludedIngressKeys, MinOps: mn, MaxOps: mx,
+			rc.World, rc.Ops = GenerateRun(seed, GenOptions{Sparse: r.IntN(3) == 0, ExcludeIngressKeys: alwaysExcludedIngressKeys, MinOps: mn, MaxOps: mx,
 				QuiesceEvery: pickInt(r, 3, 5, 9), KeysPerRun: pickInt(r, 4, 7, 10)})
 			return rc
 		}})
@@ -128,7 +128,7 @@ func init() {
 			mn, mx := tierOps(tier, 8, 24)
 			rc := &RunConfig{Property: "C01", Profile: "churn-tcp", Seed: seed, Ctl: sampleCtl(r), MapOrder: r.IntN(2) == 0,
 				Lagfree: r.IntN(4) == 0, MidSched: r.IntN(2) == 0}
-			rc.World, rc.Ops = GenerateRun(seed, GenOptions{IngressKeys: []string{"tcp-service-port", "ssl-redirect", "balance-algorithm", "timeout-server", "initial-weight", "backend-protocol"},
+			rc.World, rc.Ops = GenerateRun(seed, GenOptions{Sparse: r.IntN(3) == 0, IngressKeys: []string{"tcp-service-port", "ssl-redirect", "balance-algorithm", "timeout-server", "initial-weight", "backend-protocol"},
 				MinOps: mn, MaxOps: mx, QuiesceEvery: pickInt(r, 3, 5), KeysPerRun: 4})
 			return rc
 		}})
@@ -149,7 +149,7 @@ func init() {
 			w["global_change"] = 10
 			w["ing_delete"] = 8
 			w["svc_delete"] = 3
-			rc.World, rc.Ops = GenerateRun(seed, GenOptions{ExcludeIngressKeys: alwaysExcludedIngressKeys, MinOps: mn, MaxOps: mx,
+			rc.World, rc.Ops = GenerateRun(seed, GenOptions{Sparse: r.IntN(3) == 0, ExcludeIngressKeys: alwaysExcludedIngressKeys, MinOps: mn, MaxOps: mx,
 				QuiesceEvery: 4, KeysPerRun: pickInt(r, 3, 6), W: w})
 			return rc
 		}})
@@ -160,13 +160,15 @@ func init() {
 		ing     []string
 		glb     []string
 		weights map[string]int
+		initial map[string]string
 	}
 	focuses := []focus{
-		{"basic-auth", []string{"auth-secret", "auth-realm"}, nil, map[string]int{"ing_ann": 14, "secret_delete": 8, "secret_create": 8}},
-		{"ext-auth", []string{"auth-url", "oauth", "auth-external-placement"}, []string{"auth-proxy", "external-has-lua"}, map[string]int{"ing_ann": 16, "ing_create": 10, "ing_delete": 8, "global_change": 3}},
-		{"tcp", []string{"tcp-service-port"}, nil, map[string]int{"ing_update": 18, "ing_create": 10, "ing_delete": 8}},
-		{"tls", []string{"auth-tls-secret", "secure-crt-secret", "secure-verify-ca-secret", "secure-backends"}, nil, map[string]int{"secret_rotate": 12, "secret_delete": 6, "secret_create": 8, "secret_break": 3}},
-		{"affinity", []string{"affinity", "session-cookie-preserve", "session-cookie-value-strategy", "dynamic-scaling", "slots-min-free", "blue-green-deploy", "initial-weight"}, []string{"dynamic-scaling", "drain-support"}, map[string]int{"ep_scale": 25, "ep_ready": 10, "ep_replace": 12, "pod_term": 6}},
+		{"basic-auth", []string{"auth-secret", "auth-realm"}, nil, map[string]int{"ing_ann": 14, "secret_delete": 8, "secret_create": 8}, nil},
+		{"ext-auth", []string{"auth-url", "oauth", "auth-external-placement"}, []string{"auth-proxy", "external-has-lua"}, map[string]int{"ing_ann": 16, "ing_create": 10, "ing_delete": 8, "global_change": 3},
+			map[string]string{"external-has-lua": "true"}},
+		{"tcp", []string{"tcp-service-port"}, nil, map[string]int{"ing_update": 18, "ing_create": 10, "ing_delete": 8}, nil},
+		{"tls", []string{"auth-tls-secret", "secure-crt-secret", "secure-verify-ca-secret", "secure-backends"}, nil, map[string]int{"secret_rotate": 12, "secret_delete": 6, "secret_create": 8, "secret_break": 3}, nil},
+		{"affinity", []string{"affinity", "session-cookie-preserve", "session-cookie-value-strategy", "dynamic-scaling", "slots-min-free", "blue-green-deploy", "initial-weight"}, []string{"dynamic-scaling", "drain-support"}, map[string]int{"ep_scale": 25, "ep_ready": 10, "ep_replace": 12, "pod_term": 6}, nil},
 	}
 	mkFocus := func(prop string, f focus, or OracleSet, lagfree func(r *rand.Rand) bool, shards bool) {
 		register(&Profile{Name: "focus-" + f.name, Prop: prop, Weight: 1, Oracles: or,
@@ -186,7 +188,7 @@ func init() {
 				for k, v := range f.weights {
 					w[k] = v
 				}
-				rc.World, rc.Ops = GenerateRun(seed, GenOptions{ExcludeIngressKeys: []string{"waf", "cert-signer"}, ForceIngressKeys: f.ing, ForceGlobalKeys: f.glb,
+				rc.World, rc.Ops = GenerateRun(seed, GenOptions{Sparse: r.IntN(3) == 0, ExcludeIngressKeys: []string{"waf", "cert-signer"}, ForceIngressKeys: f.ing, ForceGlobalKeys: f.glb, InitialGlobal: f.initial,
 					MinOps: mn, MaxOps: mx, QuiesceEvery: pickInt(r, 3, 5), KeysPerRun: pickInt(r, 1, 3), AnnChance: 2, W: w})
 				return rc
 			}})
@@ -207,7 +209,7 @@ func init() {
 			mn, mx := tierOps(tier, 8, 28)
 			rc := &RunConfig{Property: "C07", Profile: "stress", Seed: seed, Ctl: sampleCtl(r), MapOrder: r.IntN(2) == 0,
 				Lagfree: r.IntN(3) == 0, MidSched: r.IntN(2) == 0}
-			rc.World, rc.Ops = GenerateRun(seed, GenOptions{ExcludeIngressKeys: []string{"waf", "cert-signer"}, MinOps: mn, MaxOps: mx,
+			rc.World, rc.Ops = GenerateRun(seed, GenOptions{Sparse: r.IntN(3) == 0, ExcludeIngressKeys: []string{"waf", "cert-signer"}, MinOps: mn, MaxOps: mx,
 				QuiesceEvery: pickInt(r, 3, 6), KeysPerRun: pickInt(r, 5, 9, 14)})
 			return rc
 		}})
